@@ -225,3 +225,92 @@ var c04Any = hx.Register(&hx.Check[c04AnyCase]{
 		}
 	},
 })
+
+// ---- a list read entry by entry ----------------------------------------------------------------------
+
+type c04IterCase struct {
+	Zs    []int  `json:"zs"`    // the leaf z of the rows, in order (row i has the key i)
+	Min   int    `json:"min"`   // rows with z < Min are hidden
+	How   string `json:"how"`   // where (a where= parameter on the list) | when (the list states the condition itself)
+	Store string `json:"store"` // rs | reflect-slice | node-slice | json-reader
+}
+
+var c04Iter = hx.Register(&hx.Check[c04IterCase]{
+	Name: "c04-list-iteration",
+	Rule: "a list of 1-8 rows of which a where= parameter or the list's own when hides those whose leaf z is below a bound, read entry by entry with Selection.First / ListItem.Next: every visible entry exactly once, in order, none of the hidden ones - the same entries the export of the whole list shows; on the reference store, slice-backed Reflect and Node stores and the JSON reader; non-trivial = a visible entry follows a hidden one",
+	Gen: func(t *rapid.T) c04IterCase {
+		c := c04IterCase{Min: rapid.IntRange(0, 3).Draw(t, "min"), How: rapid.SampledFrom([]string{"where", "when"}).Draw(t, "how"),
+			Store: rapid.SampledFrom([]string{"rs", "reflect-slice", "node-slice", "json-reader"}).Draw(t, "store")}
+		for i := 0; i < rapid.IntRange(1, 8).Draw(t, "rows"); i++ {
+			c.Zs = append(c.Zs, rapid.IntRange(0, 4).Draw(t, "z"))
+		}
+		return c
+	},
+	Run: func(c c04IterCase, o *hx.Obs) {
+		l := &dm.Node{Kind: "list", Name: "l", Keys: []string{"k"}, Children: []*dm.Node{{Kind: "leaf", Name: "k", Type: &dm.Type{Base: "int32"}}, {Kind: "leaf", Name: "z", Type: &dm.Type{Base: "int32"}}}}
+		if c.How == "when" {
+			l.When = fmt.Sprintf("z>=%d", c.Min)
+		}
+		m := &dm.Module{Name: "gm", Top: []*dm.Node{l}}
+		mm, err := loadDM(m)
+		if err != nil {
+			o.Failf("harness|schema-rejected", "%v\n%s", err, m.Yang())
+			return
+		}
+		var rows []interface{}
+		var want []string
+		afterHidden, hiddenSeen := false, false
+		for i, z := range c.Zs {
+			rows = append(rows, dm.Tree{"k": fmt.Sprint(i), "z": fmt.Sprint(z)})
+			if z >= c.Min {
+				want = append(want, fmt.Sprint(i))
+				afterHidden = afterHidden || hiddenSeen
+			} else {
+				hiddenSeen = true
+			}
+		}
+		if afterHidden {
+			o.NonTrivial()
+		}
+		o.Class("how=%s", c.How)
+		o.Class("store=%s", c.Store)
+		store, serr := dm.NewStore(c.Store, m.Root(), dm.Tree{"l": rows})
+		if serr != nil {
+			o.Failf("harness|store", "%v", serr)
+			return
+		}
+		var got []string
+		var ierr error
+		if o.Guard("First/Next", func() {
+			path := "l"
+			if c.How == "where" {
+				path = fmt.Sprintf("l?where=z%%3E%%3D%d", c.Min)
+			}
+			sel, ferr := node.NewBrowser(mm, store.Node()).Root().Find(path)
+			if ferr != nil || sel == nil {
+				ierr = fmt.Errorf("harness: Find(%s): %v", path, ferr)
+				return
+			}
+			li, e := sel.First()
+			for steps := 0; e == nil && li.Selection != nil && steps < 100; steps++ {
+				v, ge := li.Selection.GetValue("k")
+				if ge != nil || v == nil {
+					ierr = fmt.Errorf("GetValue(k): %v", ge)
+					return
+				}
+				got = append(got, v.String())
+				li, e = li.Next()
+			}
+			ierr = e
+		}) {
+			return
+		}
+		if ierr != nil {
+			o.Failf("list-iteration|"+c.How+"|"+c.Store+"|error", "iteration failed: %v", ierr)
+			return
+		}
+		if strings.Join(got, ",") != strings.Join(want, ",") {
+			o.Failf("list-iteration|"+c.How+"|"+c.Store+"|entries", "rows with z %v, hidden below %d by %s: First/Next gave the entries [%s], visible are [%s]", c.Zs, c.Min, c.How, strings.Join(got, ","), strings.Join(want, ","))
+		}
+	},
+})
